@@ -12,7 +12,7 @@
 //! on neither side.
 #![allow(dead_code)]
 
-use crate::prog::{Isa, Program};
+use super::prog::{Isa, Program};
 use falcon::architecture::Architecture;
 use falcon::executor::{Driver, Memory as ExMemory, State};
 use falcon::il;
